@@ -59,8 +59,8 @@ ASSUMPTIONS = [
     'a task that fails must surface as SOME exception from the pool form; its class is recorded, not demanded',
     'fork start method (Linux default): worker processes inherit the harness modules',
 ]
-TIERS = {'quick': {'shards': 8, 'budget_s': 150, 'min_nontrivial': 1200},
-         'thorough': {'shards': 16, 'budget_s': 1500, 'min_nontrivial': 30000}}
+TIERS = {'quick': {'shards': 8, 'budget_s': 150, 'timeout_s': 300, 'min_nontrivial': 1200},
+         'thorough': {'shards': 16, 'budget_s': 1500, 'timeout_s': 2400, 'min_nontrivial': 30000}}
 ANCHORS = {
     'static_frame.core.node_iter': ['IterNodeDelegate._apply_iter_items_parallel', 'IterNodeDelegate.apply_pool',
                                     'IterNodeDelegate.apply', 'IterNodeDelegate.apply_iter_items', 'IterNode.get_delegate'],
@@ -267,6 +267,12 @@ class _Watchdog:
         self.what, self.secs = what, secs
 
     def _fire(self, *a):
+        import multiprocessing
+        for p in multiprocessing.active_children():  # do not leave stuck workers behind
+            try:
+                p.kill()
+            except Exception:
+                pass
         raise HarnessError(f'watchdog: {self.what} exceeded {self.secs}s (inconclusive)')
 
     def __enter__(self):
@@ -525,6 +531,12 @@ def _iter_case(rng, variant=None, n=None, forced=None, threads=True, fail_rate=0
             break
         if _attempt == 25:
             case['items'] = True  # labels make the inputs distinct
+    if not threads and case['kw'].get('constructor') == 'namedtuple':
+        # known finding C18-namedtuple-process-pool: rows of the per-call namedtuple class cannot be pickled to worker
+        # processes; with more than one work item CPython 3.12's executor can moreover DEADLOCK on the second pickling
+        # error (queue feeder thread vs. manager thread on shutdown_lock), so the class is exercised by the literal probe
+        # only (one work item) and generated cases use constructor=tuple with processes
+        case['kw'] = dict(case['kw'], constructor='tuple')
     element = iface == 'iter_element'
     mode = rng.choice(_ELEMENT_MODES if element else _MODES)
     mw, chunk = _pool_config(rng, n, forced, threads)
@@ -660,7 +672,7 @@ def _probe_namedtuple_process():
     spec = F.FrameSpec(['x', 'y', 'z'], ['p', 'q'], 'str', 'str', ['int64', '<U5'], [[1, 'a'], [2, 'b'], [3, 'c']], None)
     return {'kind': 'iter', 'container': 'frame', 'iface': 'iter_tuple', 'items': False, 'threads': False, 'forced': None,
             'spec': spec, 'layout': F.layout_all_1d(spec.dtypes), 'kw': {'axis': 1, 'constructor': 'namedtuple'},
-            'mode': 'digest', 'dtype': None, 'name': None, 'max_workers': 2, 'chunksize': 1, 'delays': [0], 'fail': []}
+            'mode': 'digest', 'dtype': None, 'name': None, 'max_workers': 2, 'chunksize': 3, 'delays': [0], 'fail': []}
 
 
 def generate(ctx):
